@@ -56,3 +56,11 @@ pub fn completion_words() -> Vec<String> {
     completion_words.extend(parser_tree_converter::completion_words());
     completion_words
 }
+
+#[cfg(feature = "verif_hooks")]
+pub mod verif_hooks {
+    pub use crate::parsing::tokenizer::{tokenize, tokenize_simple, Token, Keyword, ParserToken, ParserError, ParserErrorType, keywords_list};
+    pub use crate::parsing::operator::{Operator, BinaryOperators, UnaryOperators};
+    pub use crate::parsing::parser::{Parser, ParserExpressionTree, ParserExpressionTreeData, ParserColumnDefinition, ParserJoinClause};
+    pub use crate::parsing::parser_tree_converter::{transform_expression, TransformExpressionState, completion_words, ConvertParserTreeError, ConvertParserTreeErrorType};
+}
